@@ -32,7 +32,7 @@
     does not transcribe, the function returns [OutOfFuel] (written
     [unmodelled]); the correspondence run counts such an answer as "no
     prediction" (it is reported in the evidence), so it can never stand in for
-    a real outcome.  The file follows /repo as of commit 7fadbdc (where/reject/
+    a real outcome.  The file follows /repo as of commit 8a6fb5f (where/reject/
     find/has use Liquid equality and truthiness, compact treats a missing
     property as nil, map answers nil for a missing property).
 
@@ -975,14 +975,15 @@ Definition obj_attr (v : val) (name : str) : option val :=
   | _ => None
   end.
 
-(** The translation filters' provider: context.resolve("translations", default)
-    then provider.gettext(message).  None = NullTranslations. *)
+(** The translation filters' provider: context.resolve("translations", default);
+    a value without an attribute `gettext` is refused with LiquidTypeError,
+    anything else has its .gettext(message) called.  None = NullTranslations. *)
 Definition tr_gettext (c : ctx) (msg : str) : res str :=
   match scope_lookup c (lit "translations") with
   | None => Ok msg
   | Some p =>
       match obj_attr p (lit "gettext") with
-      | None => PyExc AttributeError
+      | None => LErr LiquidTypeError None      (* not hasattr(translations, "gettext") (97793ac) *)
       | Some (VCallable r) => Ok r
       | Some _ => PyExc TypeError
       end
